@@ -135,6 +135,46 @@ def run_csv(tier, seed):
             "replay": {"reproduced": True, "detail": json.dumps(bad)} if bad else None, "clause": "items == first occurrences of the comma-split value, in order"}
 
 
+def run_parse_args(tier, seed, options=("--path-include", "--path-exclude", "--codemod-include", "--codemod-exclude")):
+    """the CSV list options reach the namespace verbatim (comma-split, first occurrences, in order) through the REAL parse_args"""
+    from codemodder.cli import parse_args
+    from codemodder.registry import load_registered_codemods
+    import contextlib, io
+    reg = load_registered_codemods()
+    pools = {
+        "--path-include": [".venv/**", "./src/*.py", "/abs/x.py", "a*b.py", "..//x", "src/**", "*.py", ".scripts/*.py", "x.py:3", " spaced .py"],
+        "--path-exclude": [".venv/**", ".tox/**", "./tests/*", "/t", "**/.git/**", "a.py", ".coverage*", "tests/**"],
+        "--codemod-include": ["pixee:python/secure-random", "pixee:python/secure*", "*django*", "nope", "pixee:python/url-sandbox", "*"],
+        "--codemod-exclude": ["pixee:python/secure-random", "pixee:python/secure*", "*django*", "nope", "*"],
+    }
+    evals, bad = 0, None
+    for opt in options:
+        pool = pools[opt]
+        lists = [[a] for a in pool] + [list(p) for p in itertools.permutations(pool, 2)] + [[a, a] for a in pool[:3]]
+        if tier == "thorough":
+            lists += [list(p) for p in itertools.permutations(pool[:6], 3)]
+        for lst in lists:
+            argv = ["some/dir", "--output", "out.codetf", opt, ",".join(lst)]
+            want = list(dict.fromkeys(lst))
+            try:
+                with contextlib.redirect_stderr(io.StringIO()), contextlib.redirect_stdout(io.StringIO()):
+                    ns = parse_args(argv, reg)
+                got = getattr(ns, opt[2:].replace("-", "_"))
+            except SystemExit as e:
+                got = f"SystemExit({e.code})"
+            except Exception as e:      # noqa
+                got = f"raised {type(e).__name__}: {e}"
+            evals += 1
+            if got != want and bad is None:
+                bad = {"argv": argv, "namespace value": got, "reference": want}
+    return {"kind": "bounded", "id": "bounded:parse_args delivers the comma-list options verbatim", "status": "refuted" if bad else "discharged",
+            "bound": "lists of <= 2 (thorough: 3) entries from pools of 5-10 patterns/ids per option (leading '.', './', '/', spaces, wildcards, path:line)",
+            "evaluations": evals, "witness": bad, "func": "codemodder.cli.parse_args",
+            "reason": "" if not bad else "the option value in the namespace is not the comma-split, order-preserving, de-duplicated list the user gave",
+            "replay": {"reproduced": True, "detail": json.dumps(bad, default=str)} if bad else None,
+            "clause": "namespace.<option> == first occurrences of value.split(','), in order, each entry unchanged"}
+
+
 def run_hashseed(tier, seed):
     """registry order must be a function of the set of entry points, not of set iteration order (hash seed)"""
     code = "from codemodder.registry import load_registered_codemods as l; import json; print(json.dumps(l().ids))"
@@ -158,4 +198,4 @@ def run_hashseed(tier, seed):
 
 
 def extra_checks(tier="quick", seed=0):
-    return [run_match(tier, seed), run_csv(tier, seed), run_hashseed(tier, seed)]
+    return [run_match(tier, seed), run_csv(tier, seed), run_parse_args(tier, seed, ("--codemod-include", "--codemod-exclude")), run_hashseed(tier, seed)]
